@@ -22,6 +22,7 @@ type CaseSpec struct {
 	MaxSteps int   `json:"max_steps,omitempty"`
 	NoMerge  bool  `json:"no_merge,omitempty"`
 	Tag      string `json:"tag,omitempty"`
+	Weight   int    `json:"-"` // scheduling hint (heavier cases first)
 }
 
 func (c CaseSpec) ID() string {
